@@ -237,10 +237,19 @@ func genYFilterCase(r *Rng, tier string) Case {
 	if tier == "thorough" {
 		g.maxDepth = 2 + r.Intn(3)
 	}
+	factored := r.Chance(25)
+	g.noStatus = factored
 	top := g.genKids(0, false)
 	c := Case{"k": "yfilter", "top": top}
-	if r.Chance(40) { // operational commands next to the data nodes
+	if !factored && r.Chance(40) { // operational commands next to the data nodes
 		c["opd"] = 1 + r.Intn(6)
+	} else if factored && len(top) >= 2 {
+		// the same module written with groupings, refines and augments (stream yuses builds them so that the
+		// inline module is equivalent): the filter sees the nodes a uses or an augment introduces
+		if fc, ok := factorForFilter(r, top); ok {
+			c["top"] = fc["plain"]
+			c["fact"] = map[string]any(fc)
+		}
 	}
 	return c
 }
@@ -269,8 +278,50 @@ func errClass(err error) string {
 	return "compile-err " + s
 }
 
+// factorForFilter: the groupings / augments factoring of stream yuses without features and without a second
+// augmenting module (the nodes keep the namespace the model gives them)
+func factorForFilter(r *Rng, plain []any) (Case, bool) {
+	u := &ufac{r: r, a2names: map[string]bool{}, plain: plain, dup: map[string]bool{}, noDup: true}
+	body := deepCopy(plain).([]any)
+	holder := map[string]any{"k": "module", "kids": body}
+	u.holder = holder
+	var all []astRef
+	collectNodes(body, nil, &all)
+	ng := 1 + r.Intn(3)
+	for i := 0; i < ng; i++ {
+		target := holder
+		if len(all) > 0 && r.Chance(70) {
+			c := all[r.Intn(len(all))]
+			k := cstr(c.node, "k")
+			if k == "container" || k == "list" || k == "case" {
+				target = c.node
+			}
+		}
+		u.group(target, "kids", 0, cbool(target, "_inb"))
+	}
+	for i := r.Intn(3); i > 0; i-- {
+		u.augment(carr(holder, "kids"))
+	}
+	if len(u.aAug) > 0 {
+		return nil, false
+	}
+	for _, g := range u.bGroup { // (stream yuses keeps the status of a grouping only where no grouping of b uses it)
+		delete(g.(map[string]any), "gstatus")
+	}
+	return Case{"plain": u.plain, "body": carr(holder, "kids"), "mgroupings": u.mGroup, "bgroupings": u.bGroup,
+		"maugments": u.mAug, "aaugments": []any{}, "features": []any{}}, true
+}
+
 func runYFilter(c Case) string {
 	texts := []string{renderSchema(carr(c, "top"))}
+	if f, ok := c["fact"].(map[string]any); ok {
+		// only when the inline module compiles: which of two errors a factored module reports first is not the
+		// inline module's business
+		if _, err := compileAll(texts...); err == nil {
+			fact, _ := yusesTexts(Case(f))
+			texts = fact[:2]
+		}
+	}
 	if v := cint(c, "opd"); v > 0 {
 		texts[0] = strings.Replace(texts[0], "prefix m;\n", "prefix m; import vyatta-opd-extensions-v1 { prefix opd; }\n"+renderOpd(v), 1)
 		texts = append(texts, opdExtModule)
